@@ -47,7 +47,7 @@ def compose(kidx, shape):
         for pt in b.ptypes:
             ptypes[pt.name] = pt
         for fn, ptn in b.fields:
-            params[fn] = Param(fn, ptn, short=f"kind {P[ki].name}" if pos == 0 else None, long="second field" if pos == 1 else None)
+            params[fn] = Param(fn, ptn, short=f"kind {P[ki].name}" if pos == 0 else None, long="second field\n  continued on an indented line\n\n\tand after a blank line, a tab" if pos == 1 else None)
         ref_raw = b.ref_raw or ref_raw
         ref_cal = b.ref_cal or ref_cal
         start = (start + b.static_width) if (start is not None and b.static_width is not None) else None
@@ -63,7 +63,7 @@ def compose(kidx, shape):
         inner = tuple(e for es in ents[1:2] for e in es)
         a_entries = tuple(ents[0]) + (("c", "NEST"),) + tuple(e for es in ents[2:] for e in es)
         conts = [Container("CCSDSPacket", hdr, abstract=True),
-                 Container("A", a_entries, base="CCSDSPacket", criteria=(Cmp("PKT_APID", "==", "1"),), long="nests NEST"),
+                 Container("A", a_entries, base="CCSDSPacket", criteria=(Cmp("PKT_APID", "==", "1"),), long="nests NEST\n    (shared with B)\n"),
                  Container("NEST", inner, short="shared"),
                  Container("B", (("c", "NEST"),), base="CCSDSPacket", criteria=(Cmp("PKT_APID", "==", "2"),))]
     return Doc(tuple(ptypes.values()), tuple(params.values()), tuple(conts))
@@ -107,11 +107,12 @@ def fit(doc, apid, pattern: bytes, seqcount=0):
     return last
 
 
-def observe_stream(defn, stream: bytes, yield_errors: bool):
+def observe_stream(defn, stream: bytes, yield_errors: bool, root=None):
     from space_packet_parser.exceptions import UnrecognizedPacketTypeError
     out = []
     with observed_warnings():
-        g = defn.packet_generator(stream, yield_unrecognized_packet_errors=yield_errors)
+        kw = {"root_container_name": root} if root else {}
+        g = defn.packet_generator(stream, yield_unrecognized_packet_errors=yield_errors, **kw)
         while True:
             try:
                 p = next(g)
@@ -251,6 +252,23 @@ def check_doc(t: Tally, kidx, shape, via, long_streams=True):
                     t.violation({"kind": "stream-mismatch", "shape": shape, "yield_errors": ye},
                                 {**case0, "packets": [pick[i][1].hex() for i in seq], "yield_errors": ye,
                                  "labels": [pick[i][0] for i in seq]}, observed=[g[0] for g in got], note=why)
+    # a root container named for one call (the nested container decoded from bit 0), then the ordinary call again on the same object
+    if shape == 3 and pick:
+        for lab, pkt, o in pick[:2]:
+            o_n = decode_packet(doc, pkt, "NEST")
+            if o_n.kind in ("parsed", "unrecognized") and not o_n.overrun:
+                got = observe_stream(defn, pkt, True, root="NEST")
+                t.evals += 1
+                why = compare_stream(expected_stream([o_n], True), got)
+                if why:
+                    t.violation({"kind": "decode-mismatch", "want": o_n.kind, "root": "per-call", "shape": shape},
+                                {**case0, "packets": [pkt.hex()], "yield_errors": True, "label": lab, "root": "NEST"}, observed=got[:2], note=why)
+            got = observe_stream(defn, pkt, True)
+            t.evals += 1
+            why = compare_stream(expected_stream([o], True), got)
+            if why:
+                t.violation({"kind": "decode-mismatch", "want": o.kind, "after": "a call with another root container", "shape": shape},
+                            {**case0, "packets": [pkt.hex()], "yield_errors": True, "label": lab, "root_history": ["NEST", None]}, observed=got[:2], note=why)
     t.programs += 1
     if "parsed" in kinds_seen and len(set(kidx)) >= 2:
         t.nontrivial += 1
